@@ -623,6 +623,8 @@ class Exec(Engine):
         if coll.t[0] not in ("set", "bag"):
             raise OutOfSubset(f"for over {coll.t}")
         et = coll.t[1]
+        if et[0] == "obj":
+            raise OutOfSubset("for over a collection of record snapshots (mutation through the loop variable would be lost)")
         mods = assigned_names(stmt.body)
         itername = ast.unparse(stmt.iter)
         if isinstance(stmt.iter, ast.Name) and stmt.iter.id in mods:
